@@ -64,6 +64,50 @@ def gen_window_cmds(rng, sessions, sel, sizes, next_id):
     return cmds
 
 
+def gen_conflict_window(rng, sessions, sel, sizes, next_id):
+    """Windows built to make commands that must exclude each other overlap: whole-mailbox
+    COPY / MOVE / body FETCH against STORE / EXPUNGE on the same mailbox, opposite-direction
+    COPY / MOVE between the two mailboxes."""
+    def base(s, act, **kw):
+        c = {"sess": s, "act": act, "uid": False, "set": [[1, STAR]], "mode": "", "flags": [], "silent": False,
+             "mbox": "", "msgid": 0, "peek": True}
+        c.update(kw)
+        return c
+    by_mb = {}
+    for s in sessions:
+        by_mb.setdefault(sel[s], []).append(s)
+    other = lambda m: "b" if m == "inbox" else "inbox"  # noqa
+    same = [ss for ss in by_mb.values() if len(ss) >= 2]
+    kind = rng.choice(["copy_store", "fetch_store", "move_store", "opposite", "expunge_fetch", "copy_expunge"])
+    cmds = []
+    if kind == "opposite" and len(by_mb) == 2:
+        (m1, s1), (m2, s2) = [(m, ss[0]) for m, ss in by_mb.items()]
+        act = rng.choice(["Copy", "Move"])
+        cmds = [base(s1, act, mbox=m2), base(s2, act, mbox=m1)]
+    elif same:
+        ss = rng.choice(same)
+        a, b = ss[0], ss[1]
+        m = sel[a]
+        fl = rng.sample(FLAGS, 1)
+        if kind == "copy_store":
+            cmds = [base(a, "Copy", mbox=other(m)), base(b, "Store", mode=rng.choice("+-"), flags=fl)]
+        elif kind == "fetch_store":
+            cmds = [base(a, "Fetch", peek=False), base(b, "Store", mode="+", flags=fl, uid=True)]
+        elif kind == "move_store":
+            cmds = [base(a, "Move", mbox=other(m)), base(b, "Store", mode="+", flags=fl)]
+        elif kind == "expunge_fetch":
+            cmds = [base(a, "Expunge", set=[]), base(b, "Fetch", peek=rng.random() < 0.5, uid=rng.random() < 0.5)]
+        else:
+            cmds = [base(a, "Copy", mbox=other(m), uid=True), base(b, "Expunge", set=[])]
+        rest = [s for s in sessions if s not in (a, b)]
+        if rest and rng.random() < 0.5:
+            cmds.append(base(rest[0], "Noop", set=[]))
+    if not cmds:
+        return gen_window_cmds(rng, sessions, sel, sizes, next_id)
+    rng.shuffle(cmds)
+    return cmds
+
+
 def render(c):
     u = "UID " if c["uid"] else ""
     k = c["act"]
@@ -127,7 +171,10 @@ async def run_windows(d: MailDriver, rng, sessions, nwin, stats):
             sel[s] = rng.choice(["inbox", "b"])
             await w.cmd(s, f"{'EXAMINE' if rng.random() < 0.15 else 'SELECT'} {sel[s]}")
         sizes = {m: len(w.server.active_mailboxes[m].uids) for m in ("inbox", "b")}
-        cmds = gen_window_cmds(rng, sessions, sel, sizes, next_id)
+        if rng.random() < 0.4:
+            cmds = gen_conflict_window(rng, sessions, sel, sizes, next_id)
+        else:
+            cmds = gen_window_cmds(rng, sessions, sel, sizes, next_id)
         if not cmds:
             continue
         init = lin_state(d)
